@@ -88,6 +88,7 @@ def check(chk: Check) -> None:
     if n_nl == 0:
         chk.bad(R1, 'line-break rule', lexrel, 'no lexer rule can match a line break')
     # resets to 1 in both entry points
+    reset_nodes: list = []
     for mn in ('parse', 'list_names'):
         q = PARSER + '.' + mn
         fi = F.func(q)
@@ -97,6 +98,8 @@ def check(chk: Check) -> None:
             for e in p.events:
                 if e.kind == 'store_attr' and e.attr == 'lineno' and freeze(e.obj) == ('attr', selft, 'lex'):
                     vals.add(freeze(e.value))
+                    if is_const(freeze(e.value)):
+                        reset_nodes.extend(ast.walk(e.node))      # the statement that performs the reset (possibly in a helper)
         chk.require(vals == {('const', 1)}, R1, '%s resets lineno' % q, fi.where,
                     'to 1' if vals == {('const', 1)} else 'the line counter starts at %s (lines are 1-based)' % (', '.join(show(v) for v in vals) or 'whatever the previous call left'))
     # nobody else
@@ -106,7 +109,7 @@ def check(chk: Check) -> None:
         for n in ast.walk(m.tree):
             if isinstance(n, ast.Attribute) and n.attr == 'lineno' and isinstance(n.ctx, ast.Store):
                 encl = [q for q, fi in F.functions.items() if fi.module is m and any(x is n for x in ast.walk(fi.node))]
-                if not any(e in (PARSER + '.parse', PARSER + '.list_names') or e.endswith('._reset') for e in encl):
+                if not any(x is n for x in reset_nodes):
                     chk.bad(R1, 'lineno written in %s' % (encl[0] if encl else m.name), '%s:%d' % (m.rel, n.lineno), 'the line counter is changed outside the lexer rules and the entry-point resets')
 
     # ----------------------------------------------------------------- R2, R3
